@@ -234,6 +234,9 @@ fn replay(args: &[String]) {
     ctx.sample_budget = 1;
     let case = Case { toks };
     (prop.replay)(&case, &mut ctx);
+    for e in &ctx.events {
+        println!("EVENT {}", e);
+    }
     if ctx.violations.is_empty() {
         println!("REPLAY property={} held ({} oracle decisions, {} calls)", id, ctx.held, ctx.evals);
     } else {
